@@ -1,4 +1,8 @@
-/* C04 (readers hold the copy before the next writer is activated): contract on the REAL
+/* NOT REGISTERED AS A JOB (spec.py): CBMC 6.11's symbolic execution of the walk does not finish within 5-10 min
+ * (NCHAIN=3, flow indices concrete via -DFI_FIXED=0,1,0, unwind 5, unwindset made_sure_nextinline_is_null.0:1,
+ * release_ownership_of_data.0:1).  Kept for further work; no claim is derived from it.
+ *
+ * C04 (readers hold the copy before the next writer is activated): contract on the REAL
  * parsec_dtd_ordering_correctly (parsec/interfaces/dtd/overlap_strategies.c, included verbatim), the walk over
  * the successor chain of a completed task.
  *
@@ -24,6 +28,8 @@
  *   parsec_dtd_get_arena_datatype (NULL), parsec_dtd_release_local_task, parsec_dtd_remote_task_release (counted).
  */
 #include "verif.h"
+#define VERIF_RG_DEFAULT_HOOKS          /* call-atomic: no interference injected; spin locks become "wait until free" */
+#include "verif_rg.h"
 #include "parsec/interfaces/dtd/overlap_strategies.c"
 
 #ifndef NCHAIN
@@ -109,6 +115,9 @@ void h_chain_walk(void)
     copyA.super.super.obj_reference_count = vin.refcount0;
     tileA.data_copy = &copyA;
     /* the chain */
+#ifdef FI_FIXED   /* flow indices fixed per cbmc process (one Job per tuple): keeps every chain pointer concrete */
+    { static const uint8_t fi_fixed[NCHAIN] = { FI_FIXED }; for (int k = 0; k < NCHAIN; k++) vin.fi[k] = fi_fixed[k]; }
+#endif
     for (int k = 0; k < NCHAIN; k++) {
         V_ASSUME(vin.fi[k] < EF);
         E[k]->t.super.task_class = &tcE.super; E[k]->t.super.taskpool = &tpool; E[k]->t.rank = 0;
